@@ -572,6 +572,9 @@ def _shape_last_of_call(name, args, kwargs):
     a0 = args[0] if args else None
     if name in _SL_SAME:
         return shape_last(a0)
+    if name in ("atleast_2d", "atleast_1d"):
+        sl = shape_last(a0)
+        return sl if (sl and (sl[1] == 2 or name == "atleast_1d")) else None
     if name == "cross" and len(args) >= 2:
         a, b = shape_last(args[0]), shape_last(args[1])
         if (a and a[0] == 3) or (b and b[0] == 3):
